@@ -1,6 +1,7 @@
 package sim
 
 import (
+	"context"
 	"errors"
 	"fmt"
 
@@ -10,6 +11,7 @@ import (
 	"github.com/libp2p/go-libp2p/core/peer"
 
 	"github.com/ipfs/go-graphsync"
+	gsimpl "github.com/ipfs/go-graphsync/impl"
 	gsmsg "github.com/ipfs/go-graphsync/message"
 )
 
@@ -25,6 +27,11 @@ type c09 struct {
 	// intruder message can carry responses for several requests that are not the intruder's
 	req2 *Req
 	dag2 *DAG
+	// requestor-side pause of r1 at a block, resumed later by the caller
+	pauseAt  int64
+	paused   bool
+	pausedAt int
+	resumed  bool
 }
 
 func newC09() Scenario { return &c09{c02: c02{prop: "C09"}} }
@@ -51,8 +58,17 @@ func (s *c09) Build(w *World) {
 		}
 	}
 	cfg := NodeCfg{GateReads: true, GateCommits: true}
-	s.a = NewNode(w, "A", cfg)
+	acfg := cfg
+	if t.Chance(250) {
+		// one request at a time: a second one waits in the requestor's queue while the intruder talks
+		acfg.Opts = append(acfg.Opts, gsimpl.MaxInProgressOutgoingRequests(1))
+	}
+	s.a = NewNode(w, "A", acfg)
 	s.b = NewNode(w, "B", cfg)
+	// the request may be paused by its own caller for a while (it is still in progress, and still nobody else's business)
+	if t.Chance(300) {
+		s.pauseAt = int64(1 + t.Draw(4))
+	}
 	populate(s.a, s.dag, s.split.Rq)
 	populate(s.b, s.dag, s.split.Rs)
 	s.t = NewScripted(w, "T")
@@ -75,6 +91,15 @@ func (s *c09) Build(w *World) {
 			a.TerminateWithError(errors.New("sim: application rejects marked response"))
 		case "update":
 			a.UpdateRequestWithExtensions(graphsync.ExtensionData{Name: "sim/reaction", Data: basicnode.NewString("r")})
+		}
+	}
+	if s.pauseAt > 0 {
+		s.a.OnIncomingBlock = func(p peer.ID, r graphsync.ResponseData, b graphsync.BlockData, a graphsync.IncomingBlockHookActions) {
+			if r.RequestID() == s.req.ID && b.Index() == s.pauseAt && !s.paused {
+				s.paused, s.pausedAt = true, w.Step
+				w.Probe("c09-victim-paused")
+				a.PauseRequest()
+			}
 		}
 	}
 	// the intruder's messages, released one by one by the scheduler
@@ -129,6 +154,12 @@ func (s *c09) Build(w *World) {
 		}
 		if s.req2 != nil && !s.req2.Issued {
 			return []*Event{s.req2.IssueEvent()}
+		}
+		if s.paused && !s.resumed && w.Step > s.pausedAt+15 && w.Quiet() {
+			return []*Event{Inject("api", "act|A|r1|unpause", func(string) {
+				s.resumed = true
+				go func() { _ = s.a.GS.Unpause(context.Background(), s.req.ID) }()
+			})}
 		}
 		return nil
 	})
@@ -220,6 +251,9 @@ func (s *c09) Final(w *World) *Violation {
 			continue
 		}
 		for _, rq := range wm.Msg.Requests() {
+			if s.paused && rq.ID() == s.req.ID {
+				continue // the caller's own pause cancels and later re-requests
+			}
 			if victim(rq.ID()) && rq.Type() != graphsync.RequestTypeNew {
 				return &Violation{Property: "C09", Rule: "R3", Signature: "request-" + string(rq.Type()) + "-caused-by-third-peer", Detail: fmt.Sprintf("the requestor sent a %s for the request to its responder although the genuine exchange gives no reason to", rq.Type())}
 			}
@@ -236,7 +270,10 @@ func (s *c09) Final(w *World) *Violation {
 		}
 		return out
 	}
-	if v := checkSingle("C09", s.req, s.dag, s.sel, s.split, only(s.dag)); v != nil {
+	csel09, _ := CanonicalSelector(s.sel)
+	if RefLoadsPathTwice(s.dag, csel09, s.split) || (s.paused && LinkSeqDiverge(s.dag, csel09, s.split, 1<<30)) {
+		w.Probe("c09-skip-known-c02-input-class") // recorded under C02 / C06; not the intruder's doing
+	} else if v := checkSingle("C09", s.req, s.dag, s.sel, s.split, only(s.dag)); v != nil {
 		v.Rule = "R2"
 		v.Signature = "outcome-changed:" + v.Signature
 		return v
